@@ -48,7 +48,7 @@ ASSUMPTIONS = [
 ]
 REQUIRED_CLAUSES = [
     "attempts-bounded", "stops-at-success", "retries-when-enabled", "no-retry-when-disabled", "non-retryable-propagates",
-    "unbounded-until-success", "wait-period", "final-outcome", "same-arguments", "documented-retryable-retries",
+    "unbounded-until-success", "wait-period", "final-outcome", "same-arguments", "documented-retryable-retries", "invocation-independent",
 ]
 REQUIRED_FEATURES = {
     "retried-after-timeout": 100, "retried-after-unsuccessful": 100, "until-success": 100, "until-success>=20-attempts": 5,
@@ -368,12 +368,42 @@ def sample_combo(rng, need):
 
 
 # ---------------------------------------------------------------------------------------------------------------------
+class Switch:
+    """Delegate of a long-lived Retry instance: forwards to the scripted delegate of the current invocation."""
+
+    def __init__(self):
+        self.current = None
+
+    def __repr__(self):
+        return "scripted-delegate"
+
+    async def __aenter__(self):
+        return self
+
+    async def __aexit__(self, *a):
+        return False
+
+    async def __call__(self, es, params):
+        return await self.current(es, params)
+
+
 class Env:
     def __init__(self):
         logging.disable(logging.CRITICAL)
         self.loop = VirtualLoop()
         asyncio.set_event_loop(self.loop)
         self.es = object()
+        # Rally registers ONE Retry instance per operation type and uses it for every task, client and request of that type:
+        # half of the cases therefore run on an instance that has already served other invocations (other parameters, other outcomes)
+        self.shared = {}   # ctor_until -> (Retry, Switch, [last invocations])
+        self.counter = 0
+        self.shared_invocations = 0
+
+    def shared_retrier(self, ctor_until):
+        if ctor_until not in self.shared:
+            sw = Switch()
+            self.shared[ctor_until] = (runner.Retry(sw, retry_until_success=ctor_until), sw, [])
+        return self.shared[ctor_until]
 
 
 class _Null:
@@ -381,11 +411,15 @@ class _Null:
         pass
 
 
-def evaluate(ctx, env, script, params, ctor_until, durations):
-    """One lock-step run of the reference and the real Retry -> (expected, observed, problems)."""
+def evaluate(ctx, env, script, params, ctor_until, durations, retrier=None, switch=None):
+    """One lock-step run of the reference and the real Retry -> (expected, observed, problems).
+    With `retrier`/`switch` the invocation runs on that (used) Retry instance instead of a fresh one."""
     exp = reference(script, params, ctor_until)
     delegate = Scripted(env.loop, script, durations)
-    retrier = runner.Retry(delegate, retry_until_success=ctor_until)
+    if retrier is None:
+        retrier = runner.Retry(delegate, retry_until_success=ctor_until)
+    else:
+        switch.current = delegate
     passed = dict(params)
     snapshot = dict(params)
 
@@ -394,6 +428,39 @@ def evaluate(ctx, env, script, params, ctor_until, durations):
 
     got = observe(env.loop, call, delegate)
     return exp, got, compare(ctx, script, params, ctor_until, exp, got, delegate, env.es, snapshot)
+
+
+HISTORY = 4
+
+
+def evaluate_on_used_instance(ctx, env, script, params, ctor_until, durations):
+    """The same invocation on the long-lived instance. A deviation that a fresh instance does not show is a dependence on earlier
+    invocations (clause invocation-independent); the witness carries the shortest suffix of the instance's history that reproduces it."""
+    retrier, sw, hist = env.shared_retrier(ctor_until)
+    env.shared_invocations += 1
+    exp, got, problems = evaluate(ctx, env, script, params, ctor_until, durations, retrier, sw)
+    ctx.clause("invocation-independent")
+    before = list(hist)
+    hist.append({"script": [kind_at(script, i) for i in range(min(max(exp["attempts"], 1), CAP))], "params": dict(params), "durations": list(durations[:CAP])})
+    del hist[:-HISTORY]
+    if not problems:
+        return None
+    _, _, fresh = evaluate(_Null(), env, script, params, ctor_until, durations)
+    if fresh:
+        return None  # not a matter of history: reported by the fresh-instance run of the same case
+    for k in range(1, len(before) + 1):
+        sw2 = Switch()
+        r2 = runner.Retry(sw2, retry_until_success=ctor_until)
+        for h in before[-k:]:
+            evaluate(_Null(), env, h["script"], h["params"], ctor_until, h["durations"], r2, sw2)
+        exp2, got2, again = evaluate(_Null(), env, script, params, ctor_until, durations, r2, sw2)
+        if again:
+            w = witness_of(script, params, ctor_until, durations, exp2, got2)
+            w["earlier_invocations_on_the_same_instance"] = before[-k:]
+            return w, f"after {k} earlier invocation(s) on the same Retry instance (last one with {before[-1]['params']}): {again[0][1]}"
+    w = witness_of(script, params, ctor_until, durations, exp, got)
+    w["earlier_invocations_on_the_same_instance"] = before
+    return w, f"on a Retry instance that served earlier invocations (not reproduced from the last {len(before)}): {problems[0][1]}"
 
 
 def witness_of(script, params, ctor_until, durations, exp, got):
@@ -423,6 +490,12 @@ def run_case(ctx, env, script, params, ctor_until, durations, tag=None):
             if same:
                 w, msg = witness_of(short, params, ctor_until, durations, exp2, got2), same[0]
         ctx.violation(clause, w, msg)
+    env.counter += 1
+    if env.counter % 2 == 0 and not problems:
+        dep = evaluate_on_used_instance(ctx, env, script, params, ctor_until, durations)
+        if dep:
+            ctx.violation("invocation-independent", dep[0], dep[1])
+            ctx.feature("used-instance-deviation")
     return problems
 
 
@@ -696,7 +769,17 @@ def replay(ctx, rec):
         check_registration(ctx, env)
         return
     c = w["case"]
-    run_case(ctx, env, c["script"], c["params"], c["ctor_until"], c.get("durations") or [0] * len(c["script"]))
+    dur = c.get("durations") or [0] * len(c["script"])
+    if "earlier_invocations_on_the_same_instance" in w:
+        retrier, sw, hist = env.shared_retrier(c["ctor_until"])
+        for h in w["earlier_invocations_on_the_same_instance"]:
+            evaluate(_Null(), env, h["script"], h["params"], c["ctor_until"], h["durations"], retrier, sw)
+            hist.append(h)
+        dep = evaluate_on_used_instance(ctx, env, c["script"], c["params"], c["ctor_until"], dur)
+        if dep:
+            ctx.violation("invocation-independent", dep[0], dep[1])
+        return
+    run_case(ctx, env, c["script"], c["params"], c["ctor_until"], dur)
 
 
 MANIFEST = {
@@ -704,7 +787,7 @@ MANIFEST = {
     "(success, unsuccessful dict, tuple, None, ConnectionTimeout, ConnectionError, socket.timeout, HTTP 408, other API error, SerializationError, bare TransportError) "
     "up to length 5 (quick) / 6 (thorough) with sampled retry parameters, up to length 2 / 3 with the full grid of 1512 parameter combinations, plus seeded random sequences up to "
     "length 12 and retry-until-success runs of up to 64 attempts; a reference interpreter of the statement is compared in lock-step (attempt count, waits on the virtual clock, "
-    "arguments, identity of the result / exception). Every operation docs/track.rst marks as retryable is driven through its registered runner. Holds on the sequences enumerated, not beyond.",
+    "arguments, identity of the result / exception). Every second invocation is repeated on a long-lived Retry instance that has served the preceding invocations (Rally registers one instance per operation type): a deviation that a fresh instance does not show is a dependence on earlier invocations. Every operation docs/track.rst marks as retryable is driven through its registered runner. Holds on the sequences enumerated, not beyond.",
     "note": "Trusts the 30-line reference interpreter, the outcome classification stated in the assumptions (408 = timeout; non-dict = success) and the virtual clock of the loop. "
     "Known finding: non-connection TransportErrors are retried without wait.",
     "technique": "runtime monitor: reference-model oracle in lock-step with the real retry loop over an exhaustively enumerated fault alphabet, virtual time",
